@@ -9,6 +9,7 @@ hash nodes, cache generation / limit, node database); every trie operation goes 
 `Trie.lstep`, the machine `Props/C02Live` proves observationally equal to the fully loaded,
 flag-free model of `Props/C02`.
   new | upd k v | del k | get k | hash | commit | reopen | dbcommit | cachelimit n | iter start | shape | keccak x
+  snap | sget i k | shash i | sshape i | badopen h      (retained trie objects; rejected opens)
 -/
 namespace Rangers.Drive.C02
 open Rangers Rangers.Trie
@@ -39,9 +40,18 @@ def parseOp (line : String) : Option Op :=
   | ["iter", s] => (ofHex? s).map .iter
   | _ => none
 
-def step (t : LTrie) (line : String) : LTrie × String :=
+/-- driver state: the working trie and the retained trie objects (`snap`) -/
+structure DState where
+  cur : LTrie
+  snaps : List LTrie
+
+def showGet : Option (Option Bytes × LTrie) → String
+  | some (some v, _) => "v=" ++ toHex v
+  | some (none, _) => "absent"
+  | none => "model-error"
+
+def step1 (t : LTrie) (line : String) : LTrie × String :=
   match splitWords line with
-  | ["new"] => (LTrie.empty, "ok")
   | ["shape"] => (t, shapeL t.root ++ " g" ++ toString t.gen)
   | ["keccak", x] =>
     match ofHex? x with
@@ -62,5 +72,43 @@ def step (t : LTrie) (line : String) : LTrie × String :=
     | some op => let r := lstep H iterFuel t op; (r.1, showObs r.2)
     | none => (t, "bad-op")
 
-def run : IO Unit := runLines LTrie.empty step
+def step (s : DState) (line : String) : DState × String :=
+  match splitWords line with
+  | ["new"] => ({ cur := LTrie.empty, snaps := [] }, "ok")
+  | ["snap"] =>
+    -- keep the current trie value, continue on a reopened one (`Commit` + `NewTrie(root, db)`)
+    let r := s.cur.reopen H
+    match r.2 with
+    | .root h => ({ cur := r.1, snaps := s.snaps ++ [(s.cur.commit H).2] }, toHex h)
+    | _ => (s, "model-error")
+  | ["fork"] => ({ s with snaps := s.snaps ++ [s.cur] }, "ok")     -- a value copy of the trie object
+  | ["sget", i, k] =>
+    match i.toNat?, ofHex? k with
+    | some i, some k =>
+      match s.snaps[i]? with
+      | some st =>
+        let r := st.get k
+        ({ s with snaps := s.snaps.set i (match r with | some x => x.2 | none => st) }, showGet r)
+      | none => (s, "bad-op")
+    | _, _ => (s, "bad-op")
+  | ["shash", i] =>
+    match i.toNat?.bind (fun i => s.snaps[i]?.map (fun st => (i, st))) with
+    | some (i, st) => let r := st.hash H; ({ s with snaps := s.snaps.set i r.2 }, toHex r.1)
+    | none => (s, "bad-op")
+  | ["sshape", i] =>
+    match i.toNat?.bind (fun i => s.snaps[i]?) with
+    | some st => (s, shapeL st.root ++ " g" ++ toString st.gen)
+    | none => (s, "bad-op")
+  | ["badopen", h] =>
+    match ofHex? h with
+    | some h =>
+      if h.length = 32 then
+        match LTrie.open s.cur.db h with
+        | some _ => (s, "opened")
+        | none => (s, "err-missing-node")
+      else (s, "bad-op")
+    | none => (s, "bad-op")
+  | _ => let r := step1 s.cur line; ({ s with cur := r.1 }, r.2)
+
+def run : IO Unit := runLines { cur := LTrie.empty, snaps := [] } step
 end Rangers.Drive.C02
